@@ -10,5 +10,8 @@ CONSTANTS
   Modes = {"never", "whole", "prefix"}
   Pieces = {0, 1, 2, 7, 64}
   GivenFile = "chunks.ndjson"
-INVARIANTS TypeOK CountExact NoWriteAfterFailure PrefixDelivered FirstError NoFailEqualsString FailsAtCapacity StringNeverPanics EmitVector
+  MaxCalls = 2
+  LaterModes = {"never"}
+  FreshPerCall = TRUE
+INVARIANTS TypeOK CountExact NoWriteAfterFailure PrefixDelivered FirstError NoFailEqualsString FailsAtCapacity StringNeverPanics CallStartsFresh HealthyAfterFailure EmitVector
 CHECK_DEADLOCK FALSE
